@@ -1,12 +1,1567 @@
 //! More C16 scenarios and the C17b close/fail scenarios (same E2 infrastructure as c16.rs).
-use crate::c16::Sc;
+//!
+//! `more_scenarios()` — the waiter/notifier protocols c16.rs does not cover yet: the
+//! connection-level `ArcSendWakers::wake_all_by`, the three key cells, the datagram reader, the
+//! crypto stream, the remote connection-id cell, the stream writer against STOP_SENDING, the
+//! burst loop against MAX_DATA, `accept_bi` / `open_bi` / `open_uni` against the peer's frames and
+//! the handshake, and protocols with two waiters.
+//!
+//! `close_scenarios()` — C17b at component level: application threads hold pending operations,
+//! a closer thread calls the `on_conn_error`s of `Components::enter_closing` /
+//! `enter_draining` (qconnection/src/lib.rs) in that order — `data_streams`, `datagram_flow`,
+//! (`tls_handshake`: no TLS object at this level), `parameters`; the connection-level flow
+//! controller is *not* told by qconnection, so it is not told here either. Every pending
+//! operation must complete with that error, every later operation must fail with it, and the
+//! assemblers must not emit application data any more.
+//!
+//! `crate::pipe::Endpoint` keeps its flow controller, parameters and send wakers private, so the
+//! endpoint is assembled here once more ([`Ep`]) with exactly the construction of
+//! `pipe::Endpoint::new` (= `qconnection::builder::init_stream_and_datagram` + `tls_fin_handler`)
+//! plus the `DatagramFlow`.
+use std::{
+    future::Future,
+    pin::Pin,
+    sync::{Arc, Mutex},
+    task::{Context, Poll},
+};
+
+use bytes::Bytes;
+use futures::task::noop_waker;
+use mc_core::sched::{Body, Ctx};
+use qbase::{
+    cid::ConnectionId,
+    error::{Error as QErr, ErrorKind, QuicError},
+    frame::{
+        CryptoFrame, DatagramFrame, Frame, FrameReader, MaxDataFrame, MaxStreamDataFrame, MaxStreamsFrame, NewConnectionIdFrame,
+        StopSendingFrame, StreamCtlFrame, StreamFrame,
+        io::ReceiveFrame,
+    },
+    net::{
+        addr::EndpointAddr,
+        route::Pathway,
+        tx::{ArcSendWaker, ArcSendWakers, Signals},
+    },
+    packet::{
+        keys::{ArcKeys, ArcOneRttKeys, ArcZeroRttKeys},
+        signal::SpinBit,
+        r#type::{Type, short::OneRtt},
+    },
+    param::{ArcParameters, ClientParameters, ParameterId, Parameters, ServerParameters},
+    role::Role,
+    sid::{Dir, StreamId, handy::ConsistentConcurrency},
+    varint::VarInt,
+};
+use qconnection::{ArcReliableFrameDeque, DataStreams, FlowController, StreamReader, StreamWriter};
+use qdatagram::{DatagramFlow, DatagramReader, DatagramWriter};
+use qrecovery::{crypto::CryptoStream, streams::error::StreamError};
+use tokio::io::{AsyncRead, AsyncWrite, ReadBuf};
+
+use crate::{
+    c16::{Obs, Sc, body, expect_eq, nobody},
+    pipe::{Cap, Cfg, SideCfg},
+};
+
+/// The in-process rustls handshake of C06 (its module is private to c06.rs; the file is compiled
+/// a second time here).
+#[allow(dead_code)]
+#[path = "c06/keys.rs"]
+mod hs_keys;
+
+// ------------------------------------------------------------------------------------------
+// small helpers
+// ------------------------------------------------------------------------------------------
+
+fn vi(v: u64) -> VarInt {
+    VarInt::from_u64(v).unwrap()
+}
+
+fn cid(b: u8) -> ConnectionId {
+    ConnectionId::from_slice(&[b; 8])
+}
+
+/// The connection error of the close scenarios and what every operation must report.
+const CLOSE_REASON: &str = "c17b";
+const CLOSE_TAG: &str = "err:NoViablePath/c17b";
+
+fn close_error() -> QErr {
+    QuicError::with_default_fty(ErrorKind::NoViablePath, CLOSE_REASON).into()
+}
+
+/// The peer's application-level CONNECTION_CLOSE, as `enter_draining` turns it into an error.
+fn app_close_error() -> QErr {
+    QErr::App(qbase::error::AppError::new(vi(42), "bye"))
+}
+
+/// kind + reason of a connection error: what "that error" means in the C17 statement.
+fn tag(e: &QErr) -> String {
+    match e {
+        QErr::Quic(q) => format!("err:{:?}/{}", q.kind(), q.reason()),
+        QErr::App(a) => format!("err:app{}/{}", a.error_code(), a.reason()),
+    }
+}
+
+fn io_tag(e: &std::io::Error) -> String {
+    match e.get_ref().and_then(|inner| inner.downcast_ref::<QErr>()) {
+        Some(q) => tag(q),
+        None => format!("io:{:?}:{e}", e.kind()),
+    }
+}
+
+fn stream_res<T>(r: &Result<T, StreamError>, ok: impl FnOnce(&T) -> String) -> String {
+    match r {
+        Ok(v) => ok(v),
+        Err(StreamError::Connection(e)) => tag(e),
+        Err(StreamError::Reset(x)) => format!("reset{}", x.error_code()),
+        Err(StreamError::EosSent) => "eos".into(),
+    }
+}
+
+fn conn_res<T>(r: &Result<T, QErr>, ok: impl FnOnce(&T) -> String) -> String {
+    match r {
+        Ok(v) => ok(v),
+        Err(e) => tag(e),
+    }
+}
+
+fn sc(name: &'static str, build: impl Fn() -> (Arc<Obs>, Vec<(String, Body)>) + Send + Sync + 'static, expect: crate::c16::Expect) -> Sc {
+    Sc { name, build: Box::new(build), expect, may_block: nobody() }
+}
+
+/// `Ctx::block_on` without its two redundant scheduling points: the first poll runs where the
+/// caller stands (right after the thread's start or after a `point`, both of which are
+/// scheduling decisions already), and a woken task re-polls as soon as it is scheduled again
+/// (the sleep itself is the scheduling point). Every order of the polls relative to the other
+/// threads' operations is still explored; the schedule count of scenarios with several waiters
+/// drops by an order of magnitude.
+fn wait<T>(c: &Ctx, label: &str, mut f: impl FnMut(&mut Context<'_>) -> Poll<T>) -> T {
+    let waker = c.waker();
+    let mut cx = Context::from_waker(&waker);
+    loop {
+        let seen = c.wake_count();
+        match f(&mut cx) {
+            Poll::Ready(v) => return v,
+            Poll::Pending => {
+                c.log(&format!("{label}:pending"));
+                c.sleep_until_woken(seen, &format!("{label}:sleep"));
+                c.log(&format!("{label}:woken"));
+            }
+        }
+    }
+}
+
+fn pathway(n: u16) -> Pathway {
+    let a = |p: u16| EndpointAddr::direct(std::net::SocketAddr::from(([127, 0, 0, 1], p)));
+    Pathway::new(a(1000 + n), a(2000 + n))
+}
+
+fn parse(bytes: &[u8]) -> Vec<Frame> {
+    let ty = Type::Short(OneRtt(SpinBit::Zero));
+    let mut out = Vec::new();
+    for item in FrameReader::new(Bytes::copy_from_slice(bytes), ty) {
+        match item {
+            Ok((f, _)) => out.push(f),
+            Err(_) => break,
+        }
+    }
+    out
+}
+
+// ------------------------------------------------------------------------------------------
+// endpoint (construction of pipe::Endpoint::new, all parts reachable)
+// ------------------------------------------------------------------------------------------
+
+fn set_common<R: qbase::role::IntoRole + Default>(p: &mut qbase::param::core::Parameters<R>, c: &SideCfg) {
+    p.set(ParameterId::InitialMaxData, vi(c.max_data)).unwrap();
+    p.set(ParameterId::InitialMaxStreamDataBidiLocal, vi(c.bidi_local)).unwrap();
+    p.set(ParameterId::InitialMaxStreamDataBidiRemote, vi(c.bidi_remote)).unwrap();
+    p.set(ParameterId::InitialMaxStreamDataUni, vi(c.uni)).unwrap();
+    p.set(ParameterId::InitialMaxStreamsBidi, vi(c.streams_bidi)).unwrap();
+    p.set(ParameterId::InitialMaxStreamsUni, vi(c.streams_uni)).unwrap();
+}
+
+fn client_params(c: &SideCfg) -> ClientParameters {
+    let mut p = ClientParameters::default();
+    set_common(&mut p, c);
+    p.set(ParameterId::InitialSourceConnectionId, cid(1)).unwrap();
+    p
+}
+
+fn server_params(c: &SideCfg) -> ServerParameters {
+    let mut p = ServerParameters::default();
+    set_common(&mut p, c);
+    p.set(ParameterId::InitialSourceConnectionId, cid(2)).unwrap();
+    p.set(ParameterId::OriginalDestinationConnectionId, cid(9)).unwrap();
+    p
+}
+
+type RxData = Box<dyn Fn((StreamFrame, Bytes)) -> Result<(), QErr> + Send + Sync>;
+type RxCtl = Box<dyn Fn(StreamCtlFrame) -> Result<(), QErr> + Send + Sync>;
+
+struct Ep {
+    remote_cfg: SideCfg,
+    wakers: ArcSendWakers,
+    reliable: ArcReliableFrameDeque,
+    flow: FlowController,
+    streams: DataStreams,
+    params: ArcParameters,
+    dgram: DatagramFlow,
+    rx_data: RxData,
+    rx_ctl: RxCtl,
+}
+
+impl Ep {
+    /// `handshake_done = false`: the state before the peer's transport parameters arrived (a
+    /// client that remembers nothing): `remote_ready()` is pending, no stream can be opened.
+    fn new(role: Role, cfg: &Cfg, handshake_done: bool) -> Ep {
+        let (local, remote) = match role {
+            Role::Client => (&cfg.client, &cfg.server),
+            Role::Server => (&cfg.server, &cfg.client),
+        };
+        let wakers = ArcSendWakers::default();
+        let reliable = ArcReliableFrameDeque::with_capacity_and_wakers(8, wakers.clone());
+        let ctrl: Box<dyn qbase::sid::ControlStreamsConcurrency> = Box::new(ConsistentConcurrency::new(local.streams_bidi, local.streams_uni));
+        let flow = FlowController::new(0, local.max_data, reliable.clone(), wakers.clone());
+        let (streams, params) = match role {
+            Role::Client => {
+                let lp = client_params(local);
+                let rp0 = ServerParameters::default();
+                let streams = DataStreams::new(Role::Client, &lp, &rp0, ctrl, reliable.clone(), wakers.clone(), None);
+                (streams, ArcParameters::from(Parameters::new_client(lp, None, cid(9))))
+            }
+            Role::Server => {
+                let lp = server_params(local);
+                let rp0 = ClientParameters::default();
+                let streams = DataStreams::new(Role::Server, &lp, &rp0, ctrl, reliable.clone(), wakers.clone(), None);
+                (streams, ArcParameters::from(Parameters::new_server(lp)))
+            }
+        };
+        let fc = qconnection::space::verif_flow_controlled_streams(streams.clone(), flow.clone());
+        let fc2 = fc.clone();
+        let dgram = DatagramFlow::new(1200, wakers.clone());
+        let ep = Ep {
+            remote_cfg: remote.clone(),
+            wakers,
+            reliable,
+            flow,
+            streams,
+            params,
+            dgram,
+            rx_data: Box::new(move |f| ReceiveFrame::<(StreamFrame, Bytes)>::recv_frame(&fc, f)),
+            rx_ctl: Box::new(move |f| ReceiveFrame::<StreamCtlFrame>::recv_frame(&fc2, f)),
+        };
+        if handshake_done {
+            ep.recv_remote_params(role);
+            ep.apply_remote_params(role);
+        }
+        ep
+    }
+
+    /// The TLS layer hands over the peer's transport parameters, the first packet authenticates
+    /// the peer's connection id.
+    fn recv_remote_params(&self, role: Role) {
+        if let Ok(mut g) = self.params.lock_guard() {
+            match role {
+                Role::Client => {
+                    let _ = g.recv_remote_params(server_params(&self.remote_cfg));
+                    let _ = g.initial_scid_from_peer_need_equal(cid(2));
+                }
+                Role::Server => {
+                    let _ = g.recv_remote_params(client_params(&self.remote_cfg));
+                    let _ = g.initial_scid_from_peer_need_equal(cid(1));
+                }
+            }
+        }
+    }
+
+    /// `tls_fin_handler`: `revise_params` / `revise_max_data`.
+    fn apply_remote_params(&self, role: Role) {
+        let Ok(g) = self.params.lock_guard() else { return };
+        match role {
+            Role::Client => {
+                let rp = g.server().expect("server parameters").clone();
+                drop(g);
+                self.streams.revise_params(false, rp.as_ref());
+            }
+            Role::Server => {
+                let rp = g.client().expect("client parameters").clone();
+                drop(g);
+                self.streams.revise_params(false, rp.as_ref());
+            }
+        }
+        self.flow.sender.revise_max_data(false, self.remote_cfg.max_data);
+    }
+
+    fn peer_stream(&self, f: StreamFrame, data: Bytes) -> Result<(), QErr> {
+        (self.rx_data)((f, data))
+    }
+
+    fn peer_ctl(&self, f: StreamCtlFrame) -> Result<(), QErr> {
+        (self.rx_ctl)(f)
+    }
+
+    fn peer_max_data(&self, v: u64) {
+        let _ = self.flow.sender.recv_frame(MaxDataFrame::new(vi(v)));
+    }
+
+    /// One packet as the burst loop of a path fills it: reliable frames, stream data, datagrams.
+    /// Returns the parsed frames and the signals the stream assembler refused with (if it did).
+    fn assemble(&self, cap: usize) -> (Vec<Frame>, Option<Signals>) {
+        let mut pkt = Cap::new(cap);
+        let _ = self.reliable.try_load_frames_into(&mut pkt);
+        let refused = self.streams.try_load_data_into(&mut pkt, &self.flow.sender, false).err();
+        let _ = self.dgram.try_load_data_into(&mut pkt);
+        (parse(pkt.bytes()), refused)
+    }
+
+    /// Only the two application-data assemblers; the number of bytes they put into a packet.
+    fn load_app_data(&self) -> usize {
+        let mut pkt = Cap::new(1200);
+        let _ = self.streams.try_load_data_into(&mut pkt, &self.flow.sender, false);
+        let _ = self.dgram.try_load_data_into(&mut pkt);
+        pkt.len()
+    }
+
+    /// The acknowledgement feedback of qconnection::space::AckDataSpace.
+    fn ack(&self, frames: Vec<Frame>) {
+        for f in frames {
+            match f {
+                Frame::Stream(sf, _) => self.streams.on_data_acked(sf),
+                Frame::StreamCtl(StreamCtlFrame::ResetStream(r)) => self.streams.on_reset_acked(r),
+                _ => {}
+            }
+        }
+    }
+
+    fn open_bi_now(&self) -> Option<(StreamId, StreamReader, StreamWriter)> {
+        let w = noop_waker();
+        let mut cx = Context::from_waker(&w);
+        let mut f = self.streams.open_bi(&self.params);
+        match Pin::new(&mut f).poll(&mut cx) {
+            Poll::Ready(Ok(Some((sid, (r, w))))) => Some((sid, r, w)),
+            _ => None,
+        }
+    }
+
+    fn accept_uni_now(&self) -> Option<(StreamId, StreamReader)> {
+        let w = noop_waker();
+        let mut cx = Context::from_waker(&w);
+        let mut f = self.streams.accept_uni();
+        match Pin::new(&mut f).poll(&mut cx) {
+            Poll::Ready(Ok(x)) => Some(x),
+            _ => None,
+        }
+    }
+}
+
+fn side(bidi_remote: u64, uni: u64, streams_bidi: u64, streams_uni: u64, max_data: u64) -> SideCfg {
+    SideCfg { max_data, bidi_local: 100, bidi_remote, uni, streams_bidi, streams_uni }
+}
+
+fn cfg_of(client: SideCfg, server: SideCfg) -> Cfg {
+    Cfg { client, server, cap: 1200, demand_concurrency: false, scripts: [vec![], vec![]], read_caps: vec![], max_packets: 0 }
+}
+
+fn roomy() -> SideCfg {
+    side(100, 100, 4, 4, 1 << 20)
+}
+
+fn write_now(w: &mut StreamWriter, data: &'static [u8]) -> bool {
+    let wk = noop_waker();
+    let mut cx = Context::from_waker(&wk);
+    matches!(w.poll_write(&mut cx, Bytes::from_static(data)), Poll::Ready(Ok(())))
+}
+
+// ------------------------------------------------------------------------------------------
+// C16: further protocols
+// ------------------------------------------------------------------------------------------
 
 /// Further waiter/notifier protocols for C16.
 pub fn more_scenarios() -> Vec<Sc> {
-    Vec::new()
+    let mut v: Vec<Sc> = Vec::new();
+    send_wakers(&mut v);
+    keys(&mut v);
+    datagram(&mut v);
+    crypto(&mut v);
+    remote_cid(&mut v);
+    writer_vs_stop_sending(&mut v);
+    writer_vs_ack(&mut v);
+    flow_blocked_burst(&mut v);
+    accept_and_open(&mut v);
+    two_waiters(&mut v);
+    v
+}
+
+fn send_wakers(v: &mut Vec<Sc>) {
+    // two paths registered at the connection-level wakers, one sleeping sender per path
+    v.push(sc(
+        "sendwakers/wake_all_by-two-paths",
+        || {
+            let obs = Arc::new(Obs::default());
+            let all = ArcSendWakers::new();
+            let (wa, wb) = (ArcSendWaker::new(), ArcSendWaker::new());
+            all.insert(pathway(1), &wa);
+            all.insert(pathway(2), &wb);
+            let (oa, ob) = (obs.clone(), obs.clone());
+            (
+                obs,
+                vec![
+                    ("path-a".into(), body(move |c| {
+                        let mut f = Box::pin(wa.wait_for(Signals::TRANSPORT));
+                        wait(c, "a.wait_for(TRANSPORT)", |cx| f.as_mut().poll(cx));
+                        oa.set("a", "woken");
+                    })),
+                    ("path-b".into(), body(move |c| {
+                        let mut f = Box::pin(wb.wait_for(Signals::TRANSPORT | Signals::FLOW_CONTROL));
+                        wait(c, "b.wait_for(TRANSPORT|FLOW_CONTROL)", |cx| f.as_mut().poll(cx));
+                        ob.set("b", "woken");
+                    })),
+                    ("notifier".into(), body(move |c| {
+                        c.point("wake_all_by(CONGESTION)");
+                        all.wake_all_by(Signals::CONGESTION);
+                        c.point("wake_all_by(TRANSPORT)");
+                        all.wake_all_by(Signals::TRANSPORT);
+                    })),
+                ],
+            )
+        },
+        Box::new(|o| match (o.get("a").as_deref(), o.get("b").as_deref()) {
+            (Some("woken"), Some("woken")) => Ok("both-woken".into()),
+            other => Err(format!("{other:?}")),
+        }),
+    ));
+    // two notifiers with different signals; every path waits for one of them, round-robin start
+    v.push(sc(
+        "sendwakers/two-notifiers-two-paths",
+        || {
+            let obs = Arc::new(Obs::default());
+            let all = ArcSendWakers::new();
+            let (wa, wb) = (ArcSendWaker::new(), ArcSendWaker::new());
+            all.insert(pathway(1), &wa);
+            all.insert(pathway(2), &wb);
+            let (all1, all2) = (all.clone(), all.clone());
+            let (oa, ob) = (obs.clone(), obs.clone());
+            (
+                obs,
+                vec![
+                    ("path-a".into(), body(move |c| {
+                        let mut f = Box::pin(wa.wait_for(Signals::WRITTEN));
+                        wait(c, "a.wait_for(WRITTEN)", |cx| f.as_mut().poll(cx));
+                        oa.set("a", "woken");
+                    })),
+                    ("path-b".into(), body(move |c| {
+                        let mut f = Box::pin(wb.wait_for(Signals::FLOW_CONTROL));
+                        wait(c, "b.wait_for(FLOW_CONTROL)", |cx| f.as_mut().poll(cx));
+                        ob.set("b", "woken");
+                    })),
+                    ("writer".into(), body(move |c| {
+                        c.point("wake_all_by(WRITTEN)");
+                        all1.wake_all_by(Signals::WRITTEN);
+                    })),
+                    ("max-data".into(), body(move |c| {
+                        c.point("wake_all_by(FLOW_CONTROL)");
+                        all2.wake_all_by(Signals::FLOW_CONTROL);
+                    })),
+                ],
+            )
+        },
+        Box::new(|o| match (o.get("a").as_deref(), o.get("b").as_deref()) {
+            (Some("woken"), Some("woken")) => Ok("both-woken".into()),
+            other => Err(format!("{other:?}")),
+        }),
+    ));
+}
+
+/// what = 0: set_keys, 1: invalid, 2: set_keys then invalid (one notifier, in that order — the
+/// opposite order is a documented misuse that panics)
+fn keys(v: &mut Vec<Sc>) {
+    const DCID: [u8; 8] = [0x83, 0x94, 0xc8, 0xf0, 0x3e, 0x51, 0x57, 0x08];
+    for (name, what) in [
+        ("keys/long/get_remote-vs-set_keys", 0u8),
+        ("keys/long/get_remote-vs-invalid", 1),
+        ("keys/long/get_remote-vs-set-then-invalid", 2),
+    ] {
+        v.push(sc(
+            name,
+            move || {
+                let obs = Arc::new(Obs::default());
+                let k = ArcKeys::new_pending();
+                let (k1, k2) = (k.clone(), k.clone());
+                let o = obs.clone();
+                (
+                    obs,
+                    vec![
+                        ("decrypt".into(), body(move |c| {
+                            let mut f = k1.get_remote_keys();
+                            let r = c.block_on("get_remote_keys", |cx| Pin::new(&mut f).poll(cx));
+                            o.set("waiter", if r.is_some() { "keys" } else { "none" });
+                        })),
+                        ("tls".into(), body(move |c| {
+                            if what != 1 {
+                                c.point("set_keys");
+                                k2.set_keys(hs_keys::initial_keys(&DCID, rustls::Side::Client));
+                            }
+                            if what != 0 {
+                                c.point("invalid");
+                                let _ = k2.invalid();
+                            }
+                        })),
+                    ],
+                )
+            },
+            expect_eq("waiter", match what { 0 => &["keys"], 1 => &["none"], _ => &["keys", "none"] }),
+        ));
+    }
+    for (name, what) in [
+        ("keys/zero-rtt/get_decrypt-vs-set_keys", 0u8),
+        ("keys/zero-rtt/get_decrypt-vs-invalid", 1),
+        ("keys/zero-rtt/get_decrypt-vs-set-then-invalid", 2),
+    ] {
+        v.push(sc(
+            name,
+            move || {
+                let obs = Arc::new(Obs::default());
+                let k = ArcZeroRttKeys::new_pending(Role::Server);
+                let (k1, k2) = (k.clone(), k.clone());
+                let o = obs.clone();
+                (
+                    obs,
+                    vec![
+                        ("decrypt".into(), body(move |c| {
+                            let mut f = k1.get_decrypt_keys().expect("a server decrypts 0-RTT");
+                            let r = c.block_on("get_decrypt_keys", |cx| Pin::new(&mut f).poll(cx));
+                            o.set("waiter", if r.is_some() { "keys" } else { "none" });
+                        })),
+                        ("tls".into(), body(move |c| {
+                            if what != 1 {
+                                c.point("set_keys");
+                                k2.set_keys(hs_keys::initial_keys(&DCID, rustls::Side::Server).remote);
+                            }
+                            if what != 0 {
+                                c.point("invalid");
+                                let _ = k2.invalid();
+                            }
+                        })),
+                    ],
+                )
+            },
+            expect_eq("waiter", match what { 0 => &["keys"], 1 => &["none"], _ => &["keys", "none"] }),
+        ));
+    }
+    for (name, what) in [
+        ("keys/one-rtt/get_remote-vs-set_keys", 0u8),
+        ("keys/one-rtt/get_remote-vs-invalid", 1),
+        ("keys/one-rtt/get_remote-vs-set-then-invalid", 2),
+    ] {
+        v.push(sc(
+            name,
+            move || {
+                let obs = Arc::new(Obs::default());
+                let k = ArcOneRttKeys::new_pending();
+                let (k1, k2) = (k.clone(), k.clone());
+                let o = obs.clone();
+                // a real handshake per execution: rustls key objects are not clonable
+                let material = if what != 1 {
+                    let mut hs = hs_keys::handshake(rustls::CipherSuite::TLS13_AES_128_GCM_SHA256, false).expect("in-process handshake");
+                    hs.client.one_rtt.take()
+                } else {
+                    None
+                };
+                (
+                    obs,
+                    vec![
+                        ("decrypt".into(), body(move |c| {
+                            let mut f = k1.get_remote_keys();
+                            let r = c.block_on("get_remote_keys", |cx| Pin::new(&mut f).poll(cx));
+                            o.set("waiter", if r.is_some() { "keys" } else { "none" });
+                        })),
+                        ("tls".into(), body(move |c| {
+                            if let Some((keys, secrets)) = material {
+                                c.point("set_keys");
+                                k2.set_keys(keys, secrets);
+                            }
+                            if what != 0 {
+                                c.point("invalid");
+                                let _ = k2.invalid();
+                            }
+                        })),
+                    ],
+                )
+            },
+            expect_eq("waiter", match what { 0 => &["keys"], 1 => &["none"], _ => &["keys", "none"] }),
+        ));
+    }
+}
+
+fn datagram(v: &mut Vec<Sc>) {
+    // what: bit 0 = a datagram arrives, bit 1 = connection error
+    for (name, what) in [
+        ("datagram/recv-vs-recv_datagram", 1u8),
+        ("datagram/recv-vs-conn-error", 2),
+        ("datagram/recv-vs-datagram-and-conn-error", 3),
+    ] {
+        v.push(sc(
+            name,
+            move || {
+                let obs = Arc::new(Obs::default());
+                let flow = DatagramFlow::new(1200, ArcSendWakers::new());
+                let mut reader = flow.reader().expect("reader");
+                let (f1, f2) = (flow.clone(), flow.clone());
+                let o = obs.clone();
+                let mut t: Vec<(String, Body)> = vec![("app".into(), body(move |c| {
+                    let mut fut = reader.recv();
+                    let r = c.block_on("recv", |cx| Pin::new(&mut fut).poll(cx));
+                    o.set("app", match r {
+                        Ok(b) => format!("ok:{}", String::from_utf8_lossy(&b)),
+                        Err(e) => io_tag(&e),
+                    });
+                }))];
+                if what & 1 != 0 {
+                    t.push(("peer".into(), body(move |c| {
+                        c.point("recv_datagram");
+                        let _ = f1.recv_frame((DatagramFrame::new(true, vi(3)), Bytes::from_static(b"abc")));
+                    })));
+                }
+                if what & 2 != 0 {
+                    t.push(("closer".into(), body(move |c| {
+                        c.point("on_conn_error");
+                        f2.on_conn_error(&close_error());
+                    })));
+                }
+                (obs, t)
+            },
+            expect_eq("app", match what { 1 => &["ok:abc"], 2 => &[CLOSE_TAG], _ => &["ok:abc", CLOSE_TAG] }),
+        ));
+    }
+}
+
+fn crypto(v: &mut Vec<Sc>) {
+    v.push(sc(
+        "crypto/read-vs-recv_frame",
+        || {
+            let obs = Arc::new(Obs::default());
+            let cs = CryptoStream::new(ArcSendWakers::new());
+            let mut reader = cs.reader();
+            let incoming = cs.incoming();
+            let o = obs.clone();
+            (
+                obs,
+                vec![
+                    ("tls".into(), body(move |c| {
+                        let mut buf = [0u8; 8];
+                        let mut rb = ReadBuf::new(&mut buf);
+                        let r = c.block_on("poll_read", |cx| Pin::new(&mut reader).poll_read(cx, &mut rb));
+                        o.set("tls", match r {
+                            Ok(()) => format!("read:{}", String::from_utf8_lossy(rb.filled())),
+                            Err(e) => format!("err:{e}"),
+                        });
+                    })),
+                    ("space".into(), body(move |c| {
+                        c.point("recv_frame");
+                        let _ = incoming.recv_frame((CryptoFrame::new(vi(0), vi(2)), Bytes::from_static(b"hi")));
+                    })),
+                ],
+            )
+        },
+        expect_eq("tls", &["read:hi"]),
+    ));
+    // the second half arrives first: it makes nothing readable, only the first half does
+    v.push(sc(
+        "crypto/read-vs-out-of-order-frames",
+        || {
+            let obs = Arc::new(Obs::default());
+            let cs = CryptoStream::new(ArcSendWakers::new());
+            let mut reader = cs.reader();
+            let (i1, i2) = (cs.incoming(), cs.incoming());
+            let o = obs.clone();
+            (
+                obs,
+                vec![
+                    ("tls".into(), body(move |c| {
+                        let mut got = Vec::new();
+                        let mut rounds = 0;
+                        while got.len() < 4 && rounds < 4 {
+                            rounds += 1;
+                            let mut buf = [0u8; 8];
+                            let mut rb = ReadBuf::new(&mut buf);
+                            let r = c.block_on("poll_read", |cx| Pin::new(&mut reader).poll_read(cx, &mut rb));
+                            if r.is_err() || rb.filled().is_empty() {
+                                break;
+                            }
+                            got.extend_from_slice(rb.filled());
+                        }
+                        o.set("tls", format!("read:{}", String::from_utf8_lossy(&got)));
+                    })),
+                    ("packet-1".into(), body(move |c| {
+                        c.point("recv_frame[0..2)");
+                        let _ = i1.recv_frame((CryptoFrame::new(vi(0), vi(2)), Bytes::from_static(b"he")));
+                    })),
+                    ("packet-2".into(), body(move |c| {
+                        c.point("recv_frame[2..4)");
+                        let _ = i2.recv_frame((CryptoFrame::new(vi(2), vi(2)), Bytes::from_static(b"lo")));
+                    })),
+                ],
+            )
+        },
+        expect_eq("tls", &["read:helo"]),
+    ));
+    // AsyncWrite::poll_flush completes when everything written has been acknowledged
+    v.push(sc(
+        "crypto/flush-vs-ack",
+        || {
+            let obs = Arc::new(Obs::default());
+            let cs = CryptoStream::new(ArcSendWakers::new());
+            let mut writer = cs.writer();
+            let outgoing = cs.outgoing();
+            {
+                let wk = noop_waker();
+                let mut cx = Context::from_waker(&wk);
+                let r = Pin::new(&mut writer).poll_write(&mut cx, b"abc");
+                assert!(matches!(r, Poll::Ready(Ok(3))), "crypto write");
+            }
+            let (o, o2) = (obs.clone(), obs.clone());
+            (
+                obs,
+                vec![
+                    ("tls".into(), body(move |c| {
+                        let r = c.block_on("poll_flush", |cx| Pin::new(&mut writer).poll_flush(cx));
+                        o.set("tls", if r.is_ok() { "flushed" } else { "err" });
+                    })),
+                    ("space".into(), body(move |c| {
+                        c.point("try_load_data_into");
+                        let mut pkt = Cap::new(1200);
+                        let _ = outgoing.try_load_data_into(&mut pkt, false);
+                        let frames = parse(pkt.bytes());
+                        c.log(&format!("try_load_data_into: {} frame(s)", frames.len()));
+                        let mut acked = 0;
+                        for f in frames {
+                            if let Frame::Crypto(cf, _) = f {
+                                c.point("on_data_acked");
+                                outgoing.on_data_acked(&cf);
+                                c.log(&format!("on_data_acked({:?})", cf.range()));
+                                acked += cf.range().end - cf.range().start;
+                            }
+                        }
+                        o2.set("acked", acked.to_string());
+                    })),
+                ],
+            )
+        },
+        Box::new(|o| {
+            // non-vacuity: the three bytes were sent and acknowledged in every execution
+            if o.get("acked").as_deref() != Some("3") {
+                return Err(format!("harness: acknowledged {:?} bytes instead of 3", o.get("acked")));
+            }
+            match o.get("tls").as_deref() {
+                Some("flushed") => Ok("flushed".into()),
+                other => Err(format!("tls = {other:?}")),
+            }
+        }),
+    ));
+}
+
+fn remote_cid(v: &mut Vec<Sc>) {
+    // what: bit 0 = NEW_CONNECTION_ID(seq 1) arrives, bit 1 = the path is abandoned (retire)
+    for (name, what) in [
+        ("remote-cid/borrow-vs-new-connection-id", 1u8),
+        ("remote-cid/borrow-vs-retire", 2),
+        ("remote-cid/borrow-vs-new-connection-id-and-retire", 3),
+    ] {
+        v.push(sc(
+            name,
+            move || {
+                let obs = Arc::new(Obs::default());
+                let reliable = ArcReliableFrameDeque::with_capacity_and_wakers(8, ArcSendWakers::new());
+                let remote = qconnection::ArcRemoteCids::new(8, reliable);
+                // the handshake path owns sequence number 0; the second path has to wait
+                let cell0 = remote.apply_dcid();
+                remote.apply_initial_dcid(cid(0xa0), &cell0);
+                let cell1 = remote.apply_dcid();
+                let cell1b = cell1.clone();
+                let tx = ArcSendWaker::new();
+                let o = obs.clone();
+                let mut t: Vec<(String, Body)> = vec![("path-1".into(), body(move |c| {
+                    let got = loop {
+                        c.point("borrow_cid");
+                        match cell1.borrow_cid(tx.clone()) {
+                            Ok(Some(id)) => break format!("id:{:02x}", id[0]),
+                            Ok(None) => break "retired".to_string(),
+                            Err(signals) => {
+                                let mut f = Box::pin(tx.wait_for(signals));
+                                c.block_on("wait_for(CONNECTION_ID)", |cx| f.as_mut().poll(cx));
+                            }
+                        }
+                    };
+                    o.set("path-1", got);
+                    drop(cell0);
+                }))];
+                if what & 1 != 0 {
+                    t.push(("peer".into(), body(move |c| {
+                        c.point("NEW_CONNECTION_ID(1)");
+                        let _ = remote.recv_frame(NewConnectionIdFrame::new(cid(0xa1), vi(1), vi(0)));
+                    })));
+                }
+                if what & 2 != 0 {
+                    t.push(("path-manager".into(), body(move |c| {
+                        c.point("retire");
+                        cell1b.retire();
+                    })));
+                }
+                (obs, t)
+            },
+            expect_eq("path-1", match what { 1 => &["id:a1"], 2 => &["retired"], _ => &["id:a1", "retired"] }),
+        ));
+    }
+}
+
+fn writer_vs_stop_sending(v: &mut Vec<Sc>) {
+    // which: 0 = shutdown, 1 = flush, 2 = write blocked on the stream window
+    for (name, which) in [
+        ("writer/shutdown-vs-stop-sending", 0u8),
+        ("writer/flush-vs-stop-sending", 1),
+        ("writer/blocked-write-vs-stop-sending", 2),
+    ] {
+        v.push(sc(
+            name,
+            move || {
+                let obs = Arc::new(Obs::default());
+                // the client's send window on its own bidi streams is the server's bidi_remote
+                let cfg = cfg_of(roomy(), side(if which == 2 { 2 } else { 100 }, 100, 4, 4, 1 << 20));
+                let ep = Arc::new(Ep::new(Role::Client, &cfg, true));
+                let (sid, _reader, mut writer) = ep.open_bi_now().expect("open");
+                assert!(write_now(&mut writer, b"ab"), "first write");
+                let ep2 = ep.clone();
+                let o = obs.clone();
+                (
+                    obs,
+                    vec![
+                        ("app".into(), body(move |c| {
+                            let _keep = _reader;
+                            let r = match which {
+                                0 => c.block_on("shutdown", |cx| writer.poll_shutdown(cx)),
+                                1 => c.block_on("flush", |cx| writer.poll_flush(cx)),
+                                _ => c.block_on("write", |cx| writer.poll_write(cx, Bytes::from_static(b"cd"))),
+                            };
+                            o.set("app", stream_res(&r, |_| "ok".into()));
+                        })),
+                        ("peer".into(), body(move |c| {
+                            c.point("STOP_SENDING");
+                            let _ = ep2.peer_ctl(StreamCtlFrame::StopSending(StopSendingFrame::new(sid, vi(7))));
+                        })),
+                    ],
+                )
+            },
+            // nothing is ever acknowledged and the window never grows: the only way out is the reset
+            expect_eq("app", &["reset7"]),
+        ));
+    }
+}
+
+fn writer_vs_ack(v: &mut Vec<Sc>) {
+    // the data (and the FIN) is in flight when the application starts to wait; the single
+    // acknowledgement must release it (c16.rs has the variant with a free-running transport
+    // thread, where the application may legitimately keep waiting)
+    for (name, shutdown) in [("writer/flush-vs-ack-of-sent-data", false), ("writer/shutdown-vs-ack-of-fin", true)] {
+        v.push(sc(
+            name,
+            move || {
+                let obs = Arc::new(Obs::default());
+                let cfg = cfg_of(roomy(), roomy());
+                let ep = Arc::new(Ep::new(Role::Client, &cfg, true));
+                let (_sid, reader, mut writer) = ep.open_bi_now().expect("open");
+                assert!(write_now(&mut writer, b"ab"), "write");
+                if shutdown {
+                    let wk = noop_waker();
+                    let mut cx = Context::from_waker(&wk);
+                    assert!(writer.poll_shutdown(&mut cx).is_pending(), "shutdown completes only when acknowledged");
+                }
+                let (frames, _) = ep.assemble(1200);
+                assert!(frames.iter().any(|f| matches!(f, Frame::Stream(..))), "the data was sent");
+                let o = obs.clone();
+                (
+                    obs,
+                    vec![
+                        ("app".into(), body(move |c| {
+                            let _keep = reader;
+                            let r = if shutdown {
+                                c.block_on("shutdown", |cx| writer.poll_shutdown(cx))
+                            } else {
+                                c.block_on("flush", |cx| writer.poll_flush(cx))
+                            };
+                            o.set("app", stream_res(&r, |_| "ok".into()));
+                        })),
+                        ("space".into(), body(move |c| {
+                            c.point("ack");
+                            ep.ack(frames);
+                        })),
+                    ],
+                )
+            },
+            expect_eq("app", &["ok"]),
+        ));
+    }
+}
+
+fn flow_blocked_burst(v: &mut Vec<Sc>) {
+    // `poll_write` is limited by the *stream* window only; the connection window is charged by
+    // the assembler, and the task that sleeps on it is a path's burst loop:
+    // `try_load_data_into → Err(signals) → wait_for(signals)`, woken by MAX_DATA.
+    v.push(sc(
+        "sender/flow-blocked-load-vs-max-data",
+        || {
+            let obs = Arc::new(Obs::default());
+            let cfg = cfg_of(roomy(), side(100, 100, 4, 4, 2));
+            let ep = Arc::new(Ep::new(Role::Client, &cfg, true));
+            let (_sid, reader, mut writer) = ep.open_bi_now().expect("open");
+            assert!(write_now(&mut writer, b"abcd"), "write");
+            let tx = ArcSendWaker::new();
+            ep.wakers.insert(pathway(1), &tx);
+            let ep2 = ep.clone();
+            let o = obs.clone();
+            (
+                obs,
+                vec![
+                    ("burst".into(), body(move |c| {
+                        let _keep = (reader, writer);
+                        let mut sent = 0usize;
+                        let mut rounds = 0;
+                        while sent < 4 && rounds < 8 {
+                            rounds += 1;
+                            c.point("try_load_data_into");
+                            let (frames, refused) = ep.assemble(1200);
+                            for f in &frames {
+                                if let Frame::Stream(_, d) = f {
+                                    sent += d.len();
+                                }
+                            }
+                            if sent >= 4 {
+                                break;
+                            }
+                            if let Some(signals) = refused {
+                                let mut f = Box::pin(tx.wait_for(signals));
+                                c.block_on("wait_for", |cx| f.as_mut().poll(cx));
+                            }
+                        }
+                        o.set("burst", format!("sent{sent}"));
+                    })),
+                    ("peer".into(), body(move |c| {
+                        c.point("MAX_DATA(100)");
+                        ep2.peer_max_data(100);
+                    })),
+                ],
+            )
+        },
+        expect_eq("burst", &["sent4"]),
+    ));
+}
+
+fn accept_and_open(v: &mut Vec<Sc>) {
+    v.push(sc(
+        "listener/accept-bi-vs-peer-open",
+        || {
+            let obs = Arc::new(Obs::default());
+            let cfg = cfg_of(roomy(), roomy());
+            let ep = Arc::new(Ep::new(Role::Server, &cfg, true));
+            let ep2 = ep.clone();
+            let o = obs.clone();
+            (
+                obs,
+                vec![
+                    ("app".into(), body(move |c| {
+                        let mut f = ep.streams.accept_bi(&ep.params);
+                        let r = c.block_on("accept_bi", |cx| Pin::new(&mut f).poll(cx));
+                        o.set("app", conn_res(&r, |(sid, _)| format!("accepted:{}", u64::from(*sid))));
+                    })),
+                    ("peer".into(), body(move |c| {
+                        c.point("STREAM(client bi 0)");
+                        let _ = ep2.peer_stream(StreamFrame::new(StreamId::new(Role::Client, Dir::Bi, 0), 0, 1), Bytes::from_static(b"x"));
+                    })),
+                ],
+            )
+        },
+        expect_eq("app", &["accepted:0"]),
+    ));
+    for (name, bi) in [("opener/open-bi-on-stream-limit-vs-max-streams", true), ("opener/open-uni-on-stream-limit-vs-max-streams", false)] {
+        v.push(sc(
+            name,
+            move || {
+                let obs = Arc::new(Obs::default());
+                // the server allows no stream at all
+                let cfg = cfg_of(roomy(), side(100, 100, 0, 0, 1 << 20));
+                let ep = Arc::new(Ep::new(Role::Client, &cfg, true));
+                let ep2 = ep.clone();
+                let o = obs.clone();
+                (
+                    obs,
+                    vec![
+                        ("app".into(), body(move |c| {
+                            let got = if bi {
+                                let mut f = ep.streams.open_bi(&ep.params);
+                                let r = c.block_on("open_bi", |cx| Pin::new(&mut f).poll(cx));
+                                conn_res(&r, |s| s.as_ref().map(|(sid, _)| format!("opened:{}", u64::from(*sid))).unwrap_or("exhausted".into()))
+                            } else {
+                                let mut f = ep.streams.open_uni(&ep.params);
+                                let r = c.block_on("open_uni", |cx| Pin::new(&mut f).poll(cx));
+                                conn_res(&r, |s| s.as_ref().map(|(sid, _)| format!("opened:{}", u64::from(*sid))).unwrap_or("exhausted".into()))
+                            };
+                            o.set("app", got);
+                        })),
+                        ("peer".into(), body(move |c| {
+                            c.point("MAX_STREAMS(1)");
+                            let _ = ep2.peer_ctl(StreamCtlFrame::MaxStreams(MaxStreamsFrame::with(if bi { Dir::Bi } else { Dir::Uni }, vi(1))));
+                        })),
+                    ],
+                )
+            },
+            expect_eq("app", if bi { &["opened:0"] } else { &["opened:2"] }),
+        ));
+    }
+    // a stream opened before the handshake finished waits twice: for the peer's parameters,
+    // then for the stream limit they carry (applied by `revise_params`)
+    v.push(sc(
+        "opener/open-bi-vs-params-then-revise",
+        || {
+            let obs = Arc::new(Obs::default());
+            let cfg = cfg_of(roomy(), roomy());
+            let ep = Arc::new(Ep::new(Role::Client, &cfg, false));
+            let ep2 = ep.clone();
+            let o = obs.clone();
+            (
+                obs,
+                vec![
+                    ("app".into(), body(move |c| {
+                        let mut f = ep.streams.open_bi(&ep.params);
+                        let r = c.block_on("open_bi", |cx| Pin::new(&mut f).poll(cx));
+                        o.set("app", conn_res(&r, |s| s.as_ref().map(|(sid, _)| format!("opened:{}", u64::from(*sid))).unwrap_or("exhausted".into())));
+                    })),
+                    ("tls".into(), body(move |c| {
+                        c.point("recv_remote_params");
+                        ep2.recv_remote_params(Role::Client);
+                        c.point("revise_params");
+                        ep2.apply_remote_params(Role::Client);
+                    })),
+                ],
+            )
+        },
+        expect_eq("app", &["opened:0"]),
+    ));
+}
+
+fn two_waiters(v: &mut Vec<Sc>) {
+    // two readers on different streams, one connection error
+    v.push(sc(
+        "two-readers/conn-error-wakes-both",
+        || {
+            let obs = Arc::new(Obs::default());
+            let cfg = cfg_of(roomy(), roomy());
+            let ep = Arc::new(Ep::new(Role::Server, &cfg, true));
+            let mut readers = Vec::new();
+            for i in 0..2 {
+                let sid = StreamId::new(Role::Client, Dir::Uni, i);
+                ep.peer_stream(StreamFrame::new(sid, 0, 0), Bytes::new()).expect("peer stream");
+                readers.push(ep.accept_uni_now().expect("accept").1);
+            }
+            let mut t: Vec<(String, Body)> = Vec::new();
+            for (i, mut r) in readers.into_iter().enumerate() {
+                let o = obs.clone();
+                let key: &'static str = if i == 0 { "r0" } else { "r1" };
+                t.push((format!("reader-{i}"), body(move |c| {
+                    let mut buf = Cap::new(8);
+                    let res = wait(c, "read", |cx| r.poll_read(cx, &mut buf));
+                    o.set(key, stream_res(&res, |_| format!("read{}", buf.len())));
+                })));
+            }
+            let ep2 = ep.clone();
+            t.push(("closer".into(), body(move |c| {
+                c.point("on_conn_error");
+                ep2.streams.on_conn_error(&close_error());
+            })));
+            (obs, t)
+        },
+        Box::new(|o| match (o.get("r0").as_deref(), o.get("r1").as_deref()) {
+            (Some(CLOSE_TAG), Some(CLOSE_TAG)) => Ok("both-failed".into()),
+            other => Err(format!("{other:?}")),
+        }),
+    ));
+    // one reader gets data, the other the connection error, in either order
+    v.push(sc(
+        "two-readers/data-for-one-then-conn-error",
+        || {
+            let obs = Arc::new(Obs::default());
+            let cfg = cfg_of(roomy(), roomy());
+            let ep = Arc::new(Ep::new(Role::Server, &cfg, true));
+            let mut readers = Vec::new();
+            for i in 0..2 {
+                let sid = StreamId::new(Role::Client, Dir::Uni, i);
+                ep.peer_stream(StreamFrame::new(sid, 0, 0), Bytes::new()).expect("peer stream");
+                readers.push(ep.accept_uni_now().expect("accept").1);
+            }
+            let mut t: Vec<(String, Body)> = Vec::new();
+            for (i, mut r) in readers.into_iter().enumerate() {
+                let o = obs.clone();
+                let key: &'static str = if i == 0 { "r0" } else { "r1" };
+                t.push((format!("reader-{i}"), body(move |c| {
+                    let mut buf = Cap::new(8);
+                    let res = wait(c, "read", |cx| r.poll_read(cx, &mut buf));
+                    o.set(key, stream_res(&res, |_| format!("read{}", buf.len())));
+                })));
+            }
+            let ep2 = ep.clone();
+            t.push(("peer-then-close".into(), body(move |c| {
+                c.point("STREAM(uni 0)");
+                let _ = ep2.peer_stream(StreamFrame::new(StreamId::new(Role::Client, Dir::Uni, 0), 0, 2), Bytes::from_static(b"hi"));
+                c.point("on_conn_error");
+                ep2.streams.on_conn_error(&close_error());
+            })));
+            (obs, t)
+        },
+        Box::new(|o| {
+            let (r0, r1) = (o.get("r0").unwrap_or_default(), o.get("r1").unwrap_or_default());
+            // reader 0 may have read the two bytes before the error, or be failed by it
+            if (r0 == "read2" || r0 == CLOSE_TAG) && r1 == CLOSE_TAG { Ok(format!("r0={r0}")) } else { Err(format!("r0={r0}, r1={r1}")) }
+        }),
+    ));
+    // two remote_ready() waiters on one ArcParameters
+    for (name, fail) in [("params/two-waiters-vs-recv+scid", false), ("params/two-waiters-vs-conn-error", true)] {
+        v.push(sc(
+            name,
+            move || {
+                let obs = Arc::new(Obs::default());
+                let mut cp = ClientParameters::default();
+                cp.set(ParameterId::InitialSourceConnectionId, cid(1)).unwrap();
+                let ps = ArcParameters::from(Parameters::new_client(cp, None, cid(9)));
+                let mut t: Vec<(String, Body)> = Vec::new();
+                for i in 0..2 {
+                    let (p, o) = (ps.clone(), obs.clone());
+                    let key: &'static str = if i == 0 { "w0" } else { "w1" };
+                    t.push((format!("waiter-{i}"), body(move |c| {
+                        let mut f = Box::pin(p.remote_ready());
+                        let r = wait(c, "remote_ready", |cx| f.as_mut().poll(cx).map(|r| r.map(|_guard| ())));
+                        o.set(key, conn_res(&r, |_| "ready".into()));
+                    })));
+                }
+                if fail {
+                    let p = ps.clone();
+                    t.push(("closer".into(), body(move |c| {
+                        c.point("on_conn_error");
+                        p.on_conn_error(&close_error());
+                    })));
+                } else {
+                    let (p2, p3) = (ps.clone(), ps.clone());
+                    t.push(("tls".into(), body(move |c| {
+                        c.point("recv_remote_params");
+                        let mut sp = ServerParameters::default();
+                        sp.set(ParameterId::InitialSourceConnectionId, cid(2)).unwrap();
+                        sp.set(ParameterId::OriginalDestinationConnectionId, cid(9)).unwrap();
+                        if let Ok(mut g) = p2.lock_guard() {
+                            let _ = g.recv_remote_params(sp);
+                        }
+                    })));
+                    t.push(("packet".into(), body(move |c| {
+                        c.point("initial_scid_from_peer");
+                        if let Ok(mut g) = p3.lock_guard() {
+                            let _ = g.initial_scid_from_peer_need_equal(cid(2));
+                        }
+                    })));
+                }
+                (obs, t)
+            },
+            Box::new(move |o| {
+                let want = if fail { CLOSE_TAG } else { "ready" };
+                match (o.get("w0"), o.get("w1")) {
+                    (Some(a), Some(b)) if a == want && b == want => Ok(format!("both-{want}")),
+                    other => Err(format!("{other:?}, expected both {want}")),
+                }
+            }),
+        ));
+    }
+    // two writers blocked on their stream windows, one MAX_STREAM_DATA each, by one peer thread
+    v.push(sc(
+        "two-writers/blocked-writes-vs-max-stream-data",
+        || {
+            let obs = Arc::new(Obs::default());
+            let cfg = cfg_of(roomy(), side(2, 2, 4, 4, 1 << 20));
+            let ep = Arc::new(Ep::new(Role::Client, &cfg, true));
+            let mut t: Vec<(String, Body)> = Vec::new();
+            let mut sids = Vec::new();
+            for i in 0..2 {
+                let (sid, reader, mut writer) = ep.open_bi_now().expect("open");
+                assert!(write_now(&mut writer, b"ab"), "first write");
+                sids.push(sid);
+                let o = obs.clone();
+                let key: &'static str = if i == 0 { "w0" } else { "w1" };
+                t.push((format!("writer-{i}"), body(move |c| {
+                    let _keep = reader;
+                    let r = wait(c, "write", |cx| writer.poll_write(cx, Bytes::from_static(b"cd")));
+                    o.set(key, stream_res(&r, |_| "ok".into()));
+                })));
+            }
+            let ep2 = ep.clone();
+            t.push(("peer".into(), body(move |c| {
+                for sid in sids {
+                    c.point("MAX_STREAM_DATA");
+                    let _ = ep2.peer_ctl(StreamCtlFrame::MaxStreamData(MaxStreamDataFrame::new(sid, vi(100))));
+                }
+            })));
+            (obs, t)
+        },
+        Box::new(|o| match (o.get("w0").as_deref(), o.get("w1").as_deref()) {
+            (Some("ok"), Some("ok")) => Ok("both-written".into()),
+            other => Err(format!("{other:?}")),
+        }),
+    ));
+}
+
+// ------------------------------------------------------------------------------------------
+// C17b: close / fail at component level
+// ------------------------------------------------------------------------------------------
+
+#[derive(Debug, Clone, Copy, PartialEq, Eq)]
+enum Kind {
+    /// `poll_read` with nothing received (receiver state Recv)
+    Read,
+    /// `poll_read` behind a gap, final size known (receiver state SizeKnown)
+    ReadSizeKnown,
+    /// `poll_write` with the stream window full (sender state Ready)
+    Write,
+    /// `poll_flush`, nothing sent yet (Ready)
+    Flush,
+    /// `poll_flush`, data sent but not acknowledged (Sending)
+    FlushSending,
+    /// `poll_shutdown`, nothing sent yet (Ready)
+    Shutdown,
+    /// `poll_shutdown`, data and FIN sent, not acknowledged (DataSent)
+    ShutdownDataSent,
+    /// `open_bi` blocked on the peer's stream limit
+    OpenBiLimit,
+    AcceptBi,
+    AcceptUni,
+    DgramRecv,
+    /// `remote_ready()` before the peer's transport parameters arrived
+    RemoteReady,
+    /// `open_bi` before the peer's transport parameters arrived
+    OpenBiNoParams,
+    /// `accept_bi` before the peer's transport parameters arrived
+    AcceptBiNoParams,
+}
+
+impl Kind {
+    fn pre_handshake(self) -> bool {
+        matches!(self, Kind::RemoteReady | Kind::OpenBiNoParams | Kind::AcceptBiNoParams)
+    }
+    fn needs_stream(self) -> bool {
+        matches!(self, Kind::Read | Kind::ReadSizeKnown | Kind::Write | Kind::Flush | Kind::FlushSending | Kind::Shutdown | Kind::ShutdownDataSent)
+    }
+    fn sent_before(self) -> bool {
+        matches!(self, Kind::FlushSending | Kind::ShutdownDataSent)
+    }
+    fn key(self) -> &'static str {
+        match self {
+            Kind::Read => "read",
+            Kind::ReadSizeKnown => "read-size-known",
+            Kind::Write => "blocked-write",
+            Kind::Flush => "flush",
+            Kind::FlushSending => "flush-in-sending",
+            Kind::Shutdown => "shutdown",
+            Kind::ShutdownDataSent => "shutdown-in-data-sent",
+            Kind::OpenBiLimit => "open-bi-on-stream-limit",
+            Kind::AcceptBi => "accept-bi",
+            Kind::AcceptUni => "accept-uni",
+            Kind::DgramRecv => "datagram-recv",
+            Kind::RemoteReady => "remote-ready",
+            Kind::OpenBiNoParams => "open-bi-before-params",
+            Kind::AcceptBiNoParams => "accept-bi-before-params",
+        }
+    }
+}
+
+struct Slot {
+    reader: StreamReader,
+    writer: StreamWriter,
+}
+
+/// Every kind of operation once more, after the close: all must fail with the close error.
+fn later_operations(ep: &Ep, slots: &[Arc<Mutex<Slot>>], dg_reader: &DatagramReader, dg_writer: &DatagramWriter, want: &str) -> Vec<String> {
+    let wk = noop_waker();
+    let mut cx = Context::from_waker(&wk);
+    let mut bad = Vec::new();
+    let mut check = |what: String, got: String| {
+        if got != want {
+            bad.push(format!("{what}={got}"));
+        }
+    };
+    let pend = || "pending".to_string();
+    for (i, s) in slots.iter().enumerate() {
+        let mut g = s.lock().unwrap();
+        let mut buf = Cap::new(8);
+        let r = match g.reader.poll_read(&mut cx, &mut buf) {
+            Poll::Ready(r) => stream_res(&r, |_| format!("read{}", buf.len())),
+            Poll::Pending => pend(),
+        };
+        check(format!("stream{i}.read"), r);
+        let r = match g.writer.poll_write(&mut cx, Bytes::from_static(b"x")) {
+            Poll::Ready(r) => stream_res(&r, |_| "ok".into()),
+            Poll::Pending => pend(),
+        };
+        check(format!("stream{i}.write"), r);
+        let r = match g.writer.poll_flush(&mut cx) {
+            Poll::Ready(r) => stream_res(&r, |_| "ok".into()),
+            Poll::Pending => pend(),
+        };
+        check(format!("stream{i}.flush"), r);
+        let r = match g.writer.poll_shutdown(&mut cx) {
+            Poll::Ready(r) => stream_res(&r, |_| "ok".into()),
+            Poll::Pending => pend(),
+        };
+        check(format!("stream{i}.shutdown"), r);
+    }
+    {
+        let mut f = ep.streams.open_bi(&ep.params);
+        let r = match Pin::new(&mut f).poll(&mut cx) {
+            Poll::Ready(r) => conn_res(&r, |_| "ok".into()),
+            Poll::Pending => pend(),
+        };
+        check("open_bi".into(), r);
+        let mut f = ep.streams.open_uni(&ep.params);
+        let r = match Pin::new(&mut f).poll(&mut cx) {
+            Poll::Ready(r) => conn_res(&r, |_| "ok".into()),
+            Poll::Pending => pend(),
+        };
+        check("open_uni".into(), r);
+        let mut f = ep.streams.accept_bi(&ep.params);
+        let r = match Pin::new(&mut f).poll(&mut cx) {
+            Poll::Ready(r) => conn_res(&r, |_| "ok".into()),
+            Poll::Pending => pend(),
+        };
+        check("accept_bi".into(), r);
+        let mut f = ep.streams.accept_uni();
+        let r = match Pin::new(&mut f).poll(&mut cx) {
+            Poll::Ready(r) => conn_res(&r, |_| "ok".into()),
+            Poll::Pending => pend(),
+        };
+        check("accept_uni".into(), r);
+    }
+    {
+        let r = match dg_reader.poll_recv(&mut cx) {
+            Poll::Ready(Ok(_)) => "ok".to_string(),
+            Poll::Ready(Err(e)) => io_tag(&e),
+            Poll::Pending => pend(),
+        };
+        check("datagram.recv".into(), r);
+        check("datagram.send".into(), dg_writer.send_bytes(Bytes::from_static(b"late")).map(|_| "ok".to_string()).unwrap_or_else(|e| io_tag(&e)));
+        check("datagram.reader()".into(), ep.dgram.reader().map(|_| "ok".to_string()).unwrap_or_else(|e| io_tag(&e)));
+        check("datagram.writer()".into(), ep.dgram.writer(1200).map(|_| "ok".to_string()).unwrap_or_else(|e| io_tag(&e)));
+    }
+    {
+        let mut f = Box::pin(ep.params.remote_ready());
+        let r = match f.as_mut().poll(&mut cx) {
+            Poll::Ready(r) => conn_res(&r.map(|_guard| ()), |_| "ok".into()),
+            Poll::Pending => pend(),
+        };
+        check("remote_ready".into(), r);
+    }
+    bad
+}
+
+fn close_sc(name: &'static str, kinds: &'static [Kind]) -> Sc {
+    close_sc_with(name, kinds, close_error)
+}
+
+fn close_sc_with(name: &'static str, kinds: &'static [Kind], mk_error: fn() -> QErr) -> Sc {
+    let build = move || {
+        let obs = Arc::new(Obs::default());
+        let pre = kinds.iter().any(|k| k.pre_handshake());
+        assert!(!pre || !kinds.iter().any(|k| k.needs_stream() || *k == Kind::OpenBiLimit), "no streams before the handshake");
+        let n_streams = kinds.iter().filter(|k| k.needs_stream()).count() as u64;
+        // the server grants exactly the streams opened below, each with a send window of 2 bytes
+        let cfg = cfg_of(roomy(), side(2, 2, n_streams, 0, 1 << 20));
+        let ep = Arc::new(Ep::new(Role::Client, &cfg, !pre));
+
+        // a datagram waits in the queue: "emits nothing afterwards" is never vacuous
+        let dg_reader = ep.dgram.reader().expect("datagram reader");
+        let dg_writer = ep.dgram.writer(1200).expect("datagram writer");
+        dg_writer.send_bytes(Bytes::from_static(b"dg")).expect("queue a datagram");
+
+        // one stream per stream operation
+        let mut slots: Vec<(Kind, StreamId, Slot)> = Vec::new();
+        for k in kinds.iter().filter(|k| k.needs_stream()) {
+            let (sid, reader, writer) = ep.open_bi_now().expect("open");
+            slots.push((*k, sid, Slot { reader, writer }));
+        }
+        let wk = noop_waker();
+        let mut cx = Context::from_waker(&wk);
+        // first the streams that have sent something before the close …
+        for (k, _, s) in slots.iter_mut().filter(|(k, ..)| k.sent_before()) {
+            assert!(write_now(&mut s.writer, b"ab"), "write");
+            if *k == Kind::ShutdownDataSent {
+                assert!(s.writer.poll_shutdown(&mut cx).is_pending(), "shutdown completes only when acknowledged");
+            }
+        }
+        if slots.iter().any(|(k, ..)| k.sent_before()) {
+            let (frames, _) = ep.assemble(1200);
+            assert!(frames.iter().any(|f| matches!(f, Frame::Stream(..))), "the prepared data was sent");
+            // the datagram went out with it; queue the next one
+            dg_writer.send_bytes(Bytes::from_static(b"dg")).expect("queue a datagram");
+        }
+        // … then the ones whose data is still waiting to be sent
+        for (k, sid, s) in slots.iter_mut().filter(|(k, ..)| !k.sent_before()) {
+            match k {
+                Kind::Write | Kind::Flush | Kind::Shutdown => assert!(write_now(&mut s.writer, b"ab"), "write"),
+                Kind::ReadSizeKnown => {
+                    let mut f = StreamFrame::new(*sid, 2, 1);
+                    f.set_eos_flag(true);
+                    ep.peer_stream(f, Bytes::from_static(b"z")).expect("peer frame");
+                }
+                _ => {}
+            }
+        }
+        let slots: Vec<(Kind, Arc<Mutex<Slot>>)> = slots.into_iter().map(|(k, _, s)| (k, Arc::new(Mutex::new(s)))).collect();
+
+        let mut t: Vec<(String, Body)> = Vec::new();
+        let mut stream_slots = slots.iter();
+        for k in kinds.iter().copied() {
+            let (ep, o) = (ep.clone(), obs.clone());
+            let slot = if k.needs_stream() { Some(stream_slots.next().expect("slot").1.clone()) } else { None };
+            let mut dg = dg_reader.clone();
+            t.push((format!("app:{}", k.key()), body(move |c| {
+                let got = match k {
+                    Kind::Read | Kind::ReadSizeKnown => {
+                        let s = slot.unwrap();
+                        let mut buf = Cap::new(8);
+                        let r = wait(c, k.key(), |cx| s.lock().unwrap().reader.poll_read(cx, &mut buf));
+                        stream_res(&r, |_| format!("read{}", buf.len()))
+                    }
+                    Kind::Write => {
+                        let s = slot.unwrap();
+                        let r = wait(c, k.key(), |cx| s.lock().unwrap().writer.poll_write(cx, Bytes::from_static(b"cd")));
+                        stream_res(&r, |_| "ok".into())
+                    }
+                    Kind::Flush | Kind::FlushSending => {
+                        let s = slot.unwrap();
+                        let r = wait(c, k.key(), |cx| s.lock().unwrap().writer.poll_flush(cx));
+                        stream_res(&r, |_| "ok".into())
+                    }
+                    Kind::Shutdown | Kind::ShutdownDataSent => {
+                        let s = slot.unwrap();
+                        let r = wait(c, k.key(), |cx| s.lock().unwrap().writer.poll_shutdown(cx));
+                        stream_res(&r, |_| "ok".into())
+                    }
+                    Kind::OpenBiLimit | Kind::OpenBiNoParams => {
+                        let mut f = ep.streams.open_bi(&ep.params);
+                        let r = wait(c, k.key(), |cx| Pin::new(&mut f).poll(cx));
+                        conn_res(&r, |s| s.as_ref().map(|(sid, _)| format!("opened:{}", u64::from(*sid))).unwrap_or("exhausted".into()))
+                    }
+                    Kind::AcceptBi | Kind::AcceptBiNoParams => {
+                        let mut f = ep.streams.accept_bi(&ep.params);
+                        let r = wait(c, k.key(), |cx| Pin::new(&mut f).poll(cx));
+                        conn_res(&r, |(sid, _)| format!("accepted:{}", u64::from(*sid)))
+                    }
+                    Kind::AcceptUni => {
+                        let mut f = ep.streams.accept_uni();
+                        let r = wait(c, k.key(), |cx| Pin::new(&mut f).poll(cx));
+                        conn_res(&r, |(sid, _)| format!("accepted:{}", u64::from(*sid)))
+                    }
+                    Kind::DgramRecv => {
+                        let mut f = dg.recv();
+                        match wait(c, k.key(), |cx| Pin::new(&mut f).poll(cx)) {
+                            Ok(b) => format!("ok:{}", b.len()),
+                            Err(e) => io_tag(&e),
+                        }
+                    }
+                    Kind::RemoteReady => {
+                        let mut f = Box::pin(ep.params.remote_ready());
+                        let r = wait(c, k.key(), |cx| f.as_mut().poll(cx).map(|r| r.map(|_guard| ())));
+                        conn_res(&r, |_| "ready".into())
+                    }
+                };
+                o.set(k.key(), got);
+            })));
+        }
+        // the closer: Components::enter_closing
+        {
+            let (ep, o) = (ep.clone(), obs.clone());
+            let slots: Vec<Arc<Mutex<Slot>>> = slots.iter().map(|(_, s)| s.clone()).collect();
+            t.push(("closer".into(), body(move |c| {
+                let e = mk_error();
+                let want = tag(&e);
+                // up to two pending operations: a scheduling point before each of the three
+                // calls and before the later operations; with three, one point before the
+                // whole (synchronous) sequence keeps the search small
+                let fine = kinds.len() <= 2;
+                c.point("data_streams.on_conn_error");
+                ep.streams.on_conn_error(&e);
+                c.log("data_streams.on_conn_error done");
+                if fine {
+                    c.point("datagram_flow.on_conn_error");
+                }
+                ep.dgram.on_conn_error(&e);
+                c.log("datagram_flow.on_conn_error done");
+                if fine {
+                    c.point("parameters.on_conn_error");
+                }
+                ep.params.on_conn_error(&e);
+                c.log("parameters.on_conn_error done");
+                if fine {
+                    c.point("after-close");
+                }
+                o.set("emitted", ep.load_app_data().to_string());
+                let bad = later_operations(&ep, &slots, &dg_reader, &dg_writer, &want);
+                o.set("later", if bad.is_empty() { "all-fail-with-the-error".to_string() } else { bad.join(" ") });
+            })));
+        }
+        (obs, t)
+    };
+    Sc {
+        name,
+        build: Box::new(build),
+        expect: Box::new(move |o| {
+            let want = tag(&mk_error());
+            let mut wrong = Vec::new();
+            for k in kinds {
+                let got = o.get(k.key()).unwrap_or_else(|| "<no result>".into());
+                if got != want {
+                    wrong.push(format!("pending {} completed with {got}", k.key()));
+                }
+            }
+            match o.get("emitted").as_deref() {
+                Some("0") => {}
+                other => wrong.push(format!("the assemblers emitted {other:?} bytes of application data after the close")),
+            }
+            match o.get("later").as_deref() {
+                Some("all-fail-with-the-error") => {}
+                other => wrong.push(format!("later operations: {other:?}")),
+            }
+            if wrong.is_empty() { Ok("all-end-with-the-error".into()) } else { Err(format!("expected {want}: {}", wrong.join("; "))) }
+        }),
+        may_block: nobody(),
+    }
 }
 
 /// C17b: every pending operation ends with the connection error.
 pub fn close_scenarios() -> Vec<Sc> {
-    Vec::new()
+    use Kind::*;
+    vec![
+        close_sc("close/read", &[Read]),
+        close_sc("close/read-size-known", &[ReadSizeKnown]),
+        close_sc("close/blocked-write", &[Write]),
+        close_sc("close/flush", &[Flush]),
+        close_sc("close/flush-in-sending", &[FlushSending]),
+        close_sc("close/shutdown", &[Shutdown]),
+        close_sc("close/shutdown-in-data-sent", &[ShutdownDataSent]),
+        close_sc("close/open-bi-on-stream-limit", &[OpenBiLimit]),
+        close_sc("close/accept-bi", &[AcceptBi]),
+        close_sc("close/accept-uni", &[AcceptUni]),
+        close_sc("close/datagram-recv", &[DgramRecv]),
+        close_sc("close/remote-ready", &[RemoteReady]),
+        close_sc("close/open-bi-before-params", &[OpenBiNoParams]),
+        close_sc("close/accept-bi-before-params", &[AcceptBiNoParams]),
+        close_sc("close/read+blocked-write", &[Read, Write]),
+        close_sc("close/flush-in-sending+shutdown-in-data-sent", &[FlushSending, ShutdownDataSent]),
+        close_sc("close/read+blocked-write+accept-uni", &[Read, Write, AcceptUni]),
+        close_sc("close/flush+shutdown+datagram-recv", &[Flush, Shutdown, DgramRecv]),
+        close_sc("close/accept-bi+accept-uni+datagram-recv", &[AcceptBi, AcceptUni, DgramRecv]),
+        close_sc("close/remote-ready+open-bi-before-params+datagram-recv", &[RemoteReady, OpenBiNoParams, DgramRecv]),
+        // the peer's application close (enter_draining) instead of a transport error
+        close_sc_with("close/app-error/read+blocked-write", &[Read, Write], app_close_error),
+        close_sc_with("close/app-error/accept-bi+accept-uni+datagram-recv", &[AcceptBi, AcceptUni, DgramRecv], app_close_error),
+    ]
 }
